@@ -6,18 +6,36 @@ given kind has the same value for all particles of the paired runs) and the envi
 particle; (ii) histories with additions, removals and re-orderings between updates for the modules that
 remember the previous step: each particle's trajectory in the community equals its trajectory alone;
 (iii) the Lean memory model (`Memory.stuck`) against the implementation's reposition decisions."""
-import warnings
+import warnings, zlib
 import numpy as np
 from . import ibmrun
 from .common import Driver, F, I, B, same_bits, RngRecorder
 from .stubs import NumState, real_state, LinEnv, Obj
 
-RULE = ("per IBM module: heterogeneous sets of 2..8 particles, a random permutation, a random sub-selection and the "
-        "empty set; draws constant per kind within a paired run; histories of 3..6 updates with moves, removals, "
-        "additions and re-orderings for chemicals/mine (remembered positions, fresh-array state) and sedimentation "
-        "(bottom-stress cache); saithe directed swimming (eggs / non-directed / directed larvae staying, leaving the grid, meeting land). Non-trivial: set with >=2 distinct particles.")
+RULE = ("per IBM module: heterogeneous sets of 2..8 particles, a random permutation, a random sub-selection (in the "
+        "original order and re-ordered) and the empty set; draws constant per kind within a paired run, and for the "
+        "permutation also draws attached to the particle (each particle keeps its own value of every full-size draw); "
+        "~60% of the sets live in a horizontally heterogeneous environment (own x, y per particle, lon/lat, temperature, "
+        "salinity and grid metric depending on the position; sandeel: bottom-temperature field varying per cell, all "
+        "life stages, hatch rate 0 = drawn in this update); chemicals with land_collision freeze / reposition / "
+        "coastal_diffusion (stub coastal mask), mine also without an `active` variable; the empty set for every "
+        "configuration branch of a module (mixing schemes x resuspension x collision handling x carriers, saithe with "
+        "extra_spreading). Histories of 3..6 updates with moves, removals, additions and re-orderings: "
+        "chemicals/mine remembered positions (fresh-array state) comparing (x,y); and full-state histories (every "
+        "state variable compared, community vs alone) for chemicals (vertical mixing, horizontal diffusion, lifespan, "
+        "three collision settings), sedimentation and mine with resuspension on (bottom current re-drawn per particle "
+        "and step around the critical stress, so the cached bottom stress matters; settled/suspended/resuspended "
+        "particles, numeric and boolean `active`, mine without `active`), particles killed by the module removed by the "
+        "tracker, pids non-contiguous and large (up to 2^33), empty states in the middle of a history under "
+        "warnings-as-errors. Memory look-up: each particle's reposition decision and new position in the set vs alone "
+        "(state and memory reduced to the particle), mine with settled particles. saithe directed swimming (eggs / "
+        "non-directed / directed larvae staying, leaving the grid, meeting land). Non-trivial: set with >=2 distinct particles.")
 ASSUMPTIONS = ["'identical random draws' is realised by serving one constant per draw kind to all particles of the "
-               "paired runs", "environment values are attached to the particle (function of its position or identity)"]
+               "paired runs; in the particle-attached variant (permutation only) a draw whose size is the whole set is "
+               "served per particle and smaller (masked) draws stay constant",
+               "environment values are attached to the particle (function of its position or identity)",
+               "between the updates of a history the tracker moves only suspended particles (active != 0) and removes "
+               "the particles the module marked dead"]
 
 
 def const_inj(rng):
@@ -54,20 +72,95 @@ def arrays_equal(a, b):
     return True
 
 
-def metamorphic(ctx, name):
-    gen, runner = ibmrun.MODULES[name]
+POOL = {"u": [0.0, 0.25, 0.5, 0.81, 1 - 2.0 ** -53], "n": [-2.5, -0.3, 0.0, 0.7, 3.0], "e": [0.0, 0.5, 3.0]}
+
+
+def ident_inj(seed, n):
+    """draws attached to the particle: a draw whose size is the whole set gives particle `ids[i]` its own value (the
+    same in every run that uses the same table), a smaller (masked) draw one constant per kind.  Sound for a
+    permutation: the k-th draw of a kind has the same size in both runs, and it is the whole set in both or in none."""
+    import random
+    r = random.Random(seed)
+    const = dict(u=r.choice(POOL["u"]), n=r.choice(POOL["n"]), e=r.choice(POOL["e"]))
+    tab = {}
+
+    def make(ids):
+        ids = np.asarray(ids, dtype=int)
+        cnt = {}
+
+        def inj(kind, params, v):
+            g = "u" if kind in ("rand", "uniform") else "n" if kind in ("randn", "normal") else "e"
+            c = cnt.get(kind, 0); cnt[kind] = c + 1
+            if v.shape != (len(ids),):
+                return np.full(v.shape, const[g])
+            key = (kind, c % 8)
+            if key not in tab:
+                rr = random.Random(seed * 31 + zlib.crc32(repr(key).encode()))
+                tab[key] = np.array([rr.choice(POOL[g] + [rr.random() if g == "u" else rr.gauss(0, 1)]) for _ in range(n)])
+            return tab[key][ids].copy()
+        return inj
+    return make
+
+
+TS_MODULES = ("egg", "salmon_lice", "larvae", "saithe", "shrimp", "vps")
+
+
+def hetero(ctx, name, case):
+    """horizontally heterogeneous environment: every particle at its own (x, y); lon/lat, temperature, salinity and the
+    grid metric depend on the position (the stub fields are functions of the position, so the environment stays
+    attached to the particle under permutation and sub-selection)"""
+    rng = ctx.rng
+    n = len(case["x"])
+    if name not in TS_MODULES and case.get("env") is None:
+        return case                                         # lunar eel: no environment is sampled
+    if name in TS_MODULES:
+        if not (name == "saithe" and case.get("spread")):
+            case["x"] = np.array([rng.uniform(2, 19) for _ in range(n)])
+        case["y"] = np.array([rng.uniform(2, 19) for _ in range(n)])
+    env = case.get("env")
+    if env is not None:
+        # 150 .. 300 degrees of longitude over the grid: some particles in daylight, some in the dark
+        env.lonx = rng.choice([9.0, -7.5, 18.0, 18.0])
+        if name == "salmon_lice" and rng.random() < 0.5:
+            env.s0 = rng.choice([34.5, 36.0])              # salty enough for the light (not the salinity) to steer the lice
+        env.laty = rng.choice([0.0, -1.5, 0.5])            # latitudes stay inside (-90, 90) for lat0 in 45..80
+        if name in TS_MODULES or name == "sandeel":
+            env.tx = rng.choice([0.5, -0.25, 0.05])
+            env.sx = rng.choice([0.0, 0.3, -0.2])          # salinity stays positive (s0 >= 5)
+        if name in ("chemicals", "saithe"):
+            env.dxx = rng.choice([0.0, 10.0, 25.0])
+    if name == "sandeel":
+        env.t0 = rng.choice([0.0, 6.0, 12.0]); env.tz = rng.choice([0.0, 0.05])
+        case["btemp_lin"] = (rng.choice([1.0, 4.0, 8.0]), rng.choice([0.37, -0.1]), rng.choice([0.21, -0.05]))
+        for i in range(n):
+            if rng.random() < 0.3:
+                case["hatch"][i] = 0.0                      # not yet initialised: drawn in this update
+    ctx.branch("%s.hetero_env" % name)
+    return case
+
+
+def metamorphic(ctx, name, gen=None, label=None):
+    gen0, runner = ibmrun.MODULES[name]
+    gen = gen or gen0
+    label = label or name
     site = "ladim_plugins/%s/ibm.py" % name
-    for _ in range(ctx.n(25, 400)):
+    for _ in range(ctx.n(40, 400)):
         n = ctx.rng.randrange(2, 9)
         case = gen(ctx.rng, n=n)
         if name in ("chemicals", "mine"):
             case["land"] = ctx.rng.choice(["freeze", "reposition"])
+        if name == "chemicals" and ctx.rng.random() < 0.3:
+            case["land"] = "coastal_diffusion"
+            case["env"].coastx = ctx.rng.choice([4.5, 10.5, 25.0])     # some / about half / all particles are coastal
+            ctx.branch("chemicals.coastal_diffusion")
+        if ctx.rng.random() < 0.6:
+            case = hetero(ctx, name, case)
         inj = const_inj(ctx.rng)
         seed = ctx.sub_seed()
         full = runner(case, seed, None, inj)
-        ctx.case(key=(name, repr(ibmrun.case_summary(case))), nontrivial=True,
-                 sample=dict(module=name, n=n) if _ == 0 else None)
-        ctx.size(name, n)
+        ctx.case(key=(label, repr(ibmrun.case_summary(case))), nontrivial=True,
+                 sample=dict(module=label, n=n) if _ == 0 else None)
+        ctx.size(label, n)
         # permutation
         perm = list(range(n)); ctx.rng.shuffle(perm); perm = np.array(perm)
         rp = runner(reindex(case, perm), seed, None, inj)
@@ -77,7 +170,7 @@ def metamorphic(ctx, name):
                        "%s differs after permuting the particle arrays with %r" % (k, perm.tolist()),
                        dict(module=name, case=ibmrun.case_summary(case), perm=perm.tolist(), key=k,
                             full=v, permuted=rp["after"][k]))
-        ctx.branch("%s.perm" % name)
+        ctx.branch("%s.perm" % label)
         # sub-selection
         m = ctx.rng.randrange(1, n)
         sel = np.array(sorted(ctx.rng.sample(range(n), m)))
@@ -88,10 +181,30 @@ def metamorphic(ctx, name):
                        "%s of particles %r differs when the others are absent" % (k, sel.tolist()),
                        dict(module=name, case=ibmrun.case_summary(case), sel=sel.tolist(), key=k,
                             full=v, alone=rs["after"][k]))
-        ctx.branch("%s.subset" % name)
+        ctx.branch("%s.subset" % label)
+        # sub-selection in another order (a sub-selection and a permutation at once)
+        sel2 = np.array(ctx.rng.sample(range(n), ctx.rng.randrange(1, n + 1)))
+        rs2 = runner(reindex(case, sel2), seed, None, inj)
+        for k, v in full["after"].items():
+            ok = arrays_equal(v[sel2], rs2["after"][k])
+            ctx.oracle(ok, "C10.%s.subselection" % name, site,
+                       "%s of particles %r (re-ordered sub-selection) differs when the others are absent" % (k, sel2.tolist()),
+                       dict(module=name, case=ibmrun.case_summary(case), sel=sel2.tolist(), key=k,
+                            full=v, alone=rs2["after"][k]))
+        ctx.branch("%s.subset_reordered" % label)
+        # permutation with draws attached to the particle
+        mk = ident_inj(seed, n)
+        fi = runner(case, seed, None, mk(np.arange(n)))
+        pi = runner(reindex(case, perm), seed, None, mk(perm))
+        for k, v in fi["after"].items():
+            ok = arrays_equal(v[perm], pi["after"][k])
+            ctx.oracle(ok, "C10.%s.permutation" % name, site,
+                       "%s differs after permuting the particle arrays (and each particle's own draws) with %r" % (k, perm.tolist()),
+                       dict(module=name, case=ibmrun.case_summary(case), perm=perm.tolist(), key=k, draws="per particle",
+                            full=v, permuted=pi["after"][k]))
+        ctx.branch("%s.perm_own_draws" % label)
     # empty set: no error, no warning
-    for _ in range(ctx.n(3, 20)):
-        case = gen(ctx.rng, n=0)
+    def empty_run(case, tagk):
         ok = True; msg = ""
         with warnings.catch_warnings():
             warnings.simplefilter("error")
@@ -100,10 +213,61 @@ def metamorphic(ctx, name):
                     runner(case, ctx.sub_seed(), None, None)
             except Exception as e:       # noqa
                 ok = False; msg = repr(e)
-        ctx.case(key=(name, "empty", _), nontrivial=False)
-        ctx.branch("%s.empty" % name)
+        ctx.case(key=(label, "empty", tagk), nontrivial=False)
+        ctx.branch("%s.empty" % label)
         ctx.oracle(ok, "C10.%s.empty_set" % name, site, "empty particle set: " + msg,
                    dict(module=name, case=ibmrun.case_summary(case)))
+    for _ in range(ctx.n(3, 20)):
+        empty_run(gen(ctx.rng, n=0), _)
+    if gen is gen0:
+        for j, case in enumerate(empty_variants(name, ctx.rng)):
+            empty_run(case, ("variant", j))
+            ctx.branch("%s.empty_config_branch" % label)
+
+
+def empty_variants(name, rng):
+    """the empty set in every configuration branch of a module (instead of three random configurations)"""
+    g = ibmrun.MODULES[name][0]
+    if name == "chemicals":
+        for mix in (0, 1, 2):
+            for horz in (False, True):
+                for land in ("freeze", "reposition", "coastal_diffusion"):
+                    yield ibmrun.chem_case(rng, n=0, horz=horz, mix=mix, land=land)
+    elif name == "sedimentation":
+        for mixing in (None, 1e-2, 0, dict(method="constant", value=1e-2), dict(method="bounded_linear", max_diff=1e-2)):
+            for tc in (None, 0.12, 0.0):
+                for carrier in ("numeric", "bool"):
+                    c = ibmrun.sed_case(rng, n=0, carrier=carrier)
+                    c["mixing"] = mixing; c["taucrit"] = tc
+                    yield c
+    elif name == "mine":
+        for land in ("freeze", "reposition"):
+            for tc in (1000, 0.12, 0.0):
+                for vadv in (False, True):
+                    for carrier in ("numeric", "bool"):
+                        c = ibmrun.mine_case(rng, n=0)
+                        c["land"] = land; c["taucrit"] = tc; c["vadv"] = vadv; c["carrier"] = carrier
+                        c["active"] = np.zeros(0) if carrier == "numeric" else np.zeros(0, bool)
+                        yield c
+            c = ibmrun.mine_case(rng, n=0, no_active=True)
+            c["land"] = land
+            yield c
+    elif name == "saithe":
+        for spread in (False, True):
+            c = g(rng, n=0)
+            c["spread"] = spread; c["direction"] = np.zeros(0)
+            yield c
+    elif name in ("egg", "salmon_lice", "larvae"):
+        for D in (0.0, 1e-2):
+            c = g(rng, n=0)
+            c["D"] = D
+            yield c
+    elif name == "sandeel":
+        c = g(rng, n=0)
+        c["btemp_lin"] = (4.0, 0.37, 0.21)
+        yield c
+    else:
+        yield g(rng, n=0)
 
 
 # ------------------------------------------------------------------ histories (identity-based memory)
@@ -180,17 +344,245 @@ def histories(ctx, modname):
                        dict(module=modname, script=script, pid=p, community=comm[p], alone=solo[p]))
 
 
+# ------------------------------------------------------------------ full-state histories (memory, caches, masks)
+def full_conf(rng, modname):
+    """configuration + stub environment of a full-state history"""
+    dt = rng.choice([60.0, 600.0])
+    h0 = rng.choice([5.0, 40.0])
+    if modname == "chemicals":
+        env = LinEnv(h0=h0, hx=rng.choice([0.0, h0 / 64]), w0=rng.choice([0.0, 1e-4, -1e-4]), kkind=rng.randrange(3),
+                     k0=rng.choice([1e-4, 1e-3]), k1=rng.choice([1e-5, 1e-3]), zs=2.0,
+                     a0=rng.choice([0.0, 5.0, 50.0]), ax=rng.choice([0.0, 1.0]), dx=rng.choice([160.0, 800.0]),
+                     coastx=rng.choice([6.5, 10.5]))
+        ibm = dict(land_collision=rng.choice(["reposition", "reposition", "reposition", "freeze", "coastal_diffusion"]),
+                   vertical_advection=rng.random() < 0.5)
+        mix = rng.randrange(3)
+        if mix == 1:
+            ibm["vertical_mixing"] = rng.choice([1e-5, 1e-3])
+        elif mix == 2:
+            ibm.update(vertical_mixing="AKs", vertdiff_dt=dt / 2, vertdiff_dz=rng.choice([0.0, 0.5]))
+        if rng.random() < 0.5:
+            ibm.update(horzdiff_type="smagorinsky", horzdiff_max=rng.choice([float("inf"), 20.0]))
+        if rng.random() < 0.5:
+            ibm["lifespan"] = rng.choice([2 * dt, 3 * dt, 1e6])
+        return dict(dt=dt, env=env, ibm=ibm, has_active=False, has_sink=False, tc=None)
+    env = LinEnv(h0=h0, hx=rng.choice([0.0, h0 / 100]))
+    carrier = rng.choice(["numeric", "numeric", "bool"])
+    if modname == "sedimentation":
+        tc = rng.choice([None, 0.12, 0.12, 0.0, 0.06])
+        ibm = dict(lifespan=rng.choice([3 * dt, 1e6, 1e6]))
+        mix = rng.randrange(3)
+        if mix:
+            ibm["vertical_mixing"] = [None, rng.choice([1e-4, 1e-2]), dict(method="bounded_linear", max_diff=rng.choice([1e-3, 1e-2]))][mix]
+        if tc is not None:
+            ibm["taucrit"] = tc
+        return dict(dt=dt, env=env, ibm=ibm, has_active=True, has_sink=True, tc=tc, carrier=carrier)
+    # mine
+    no_active = rng.random() < 0.15
+    tc = rng.choice([1000, 2000.0]) if no_active else rng.choice([0.12, 0.12, 0.06, 0.0, 1000])
+    ibm = dict(lifespan=rng.choice([3 * dt, 1e6, 1e6]), vertical_mixing=rng.choice([0.0, 1e-4, 1e-2]), taucrit=tc,
+               land_collision=rng.choice(["reposition", "reposition", "freeze"]), vertical_advection=rng.random() < 0.3)
+    env.w0 = rng.choice([0.0, 1e-3, -1e-4])
+    return dict(dt=dt, env=env, ibm=ibm, has_active=not no_active, has_sink=True, tc=None if tc >= 1000 else tc,
+                carrier=carrier, top=dict(output_instance=[], nc_attributes={}))
+
+
+def make_full_script(rng, steps, npart, modname, conf):
+    """per pid (non-contiguous labels, possibly large): birth, death, per-step tracker move or None (not moved),
+    start position / depth / flag / sinking velocity / age, per-step bottom current around the critical stress"""
+    env = conf["env"]
+    base = rng.choice([0, 0, 1000, 2 ** 33])
+    labels = rng.sample(range(base, base + 40), npart)
+    tc = conf["tc"] if conf["tc"] is not None else 0.12
+    s_at = (tc / 3.0) ** 0.5 if tc > 0 else 0.0
+    sc = {}
+    for pid in labels:
+        birth = rng.randrange(0, max(1, steps - 1)) if rng.random() < 0.4 else 0
+        death = rng.randrange(birth + 1, steps + 1) if rng.random() < 0.4 else steps + 1
+        moves = [None if rng.random() < 0.35 else (rng.uniform(-0.4, 0.4), rng.uniform(-0.4, 0.4)) for _ in range(steps)]
+        x0 = rng.uniform(3, 18); y0 = rng.uniform(3, 18)
+        H = float(env.depth(x0, y0))
+        if conf["has_active"]:
+            a0 = rng.choice([0, 1, 1, 2]) if conf["carrier"] == "numeric" else rng.choice([0, 1, 1])
+        else:
+            a0 = 1
+        z0 = H if a0 == 0 else rng.choice([0.0, H, H * (1 - 2.0 ** -40), rng.uniform(0, H)])
+        sc[pid] = dict(birth=birth, death=death, moves=moves, x0=x0, y0=y0, z0=z0, active0=a0,
+                       sink=rng.choice(([0.0] if modname == "sedimentation" else []) + [1e-9, 1e-3, 0.01, 0.1]),
+                       age0=rng.choice([0.0, 0.0, conf["dt"], 5e5]),
+                       ub=[rng.choice([0.0, s_at, s_at * (1 - 1e-9), s_at * (1 + 1e-9), 2 * s_at + 0.01, 0.3 * s_at]) for _ in range(steps)],
+                       vb=[rng.choice([0.0, 0.0, 0.01]) for _ in range(steps)])
+    return sc
+
+
+FULL_VARS = ("X", "Y", "Z", "age", "alive", "active", "sink_vel")
+
+
+def run_full_history(modname, conf, script, pids, steps, seed, inj, shuffle_rng=None):
+    """community of `pids` living through `steps` updates of ONE IBM object (its remembered positions and its cached
+    bottom stress live across the steps).  Returns ({pid: [state of the particle after each update it lived]},
+    [(step, message) for every empty state that raised or warned])."""
+    M = ibmrun.mod(modname)
+    env = conf["env"]
+    cfg = dict(dt=conf["dt"], ibm=dict(conf["ibm"]))
+    cfg.update(conf.get("top", {}))
+    ibm = M.IBM(cfg)
+    mobile_needs_active = conf["has_active"]
+    cur = {}
+    traj = {p: [] for p in pids}
+    empties = []
+    for t in range(steps):
+        # tracker: retire (scripted, or marked dead by the module in the previous update), release
+        for p in list(cur):
+            if script[p]["death"] <= t or not cur[p]["alive"]:
+                del cur[p]
+        for p in pids:
+            if script[p]["birth"] == t:
+                sp = script[p]
+                cur[p] = dict(X=sp["x0"], Y=sp["y0"], Z=sp["z0"], age=sp["age0"], alive=True, active=sp["active0"],
+                              sink_vel=sp["sink"])
+        order = [p for p in pids if p in cur]
+        if shuffle_rng is not None:
+            shuffle_rng.shuffle(order)
+        if t > 0:
+            for p in order:
+                mv = script[p]["moves"][t]
+                if mv is not None and script[p]["birth"] < t and (not mobile_needs_active or cur[p]["active"] != 0):
+                    cur[p]["X"] += mv[0]; cur[p]["Y"] += mv[1]
+        n = len(order)
+        arr = dict(X=np.array([cur[p]["X"] for p in order], dtype=float), Y=np.array([cur[p]["Y"] for p in order], dtype=float),
+                   Z=np.array([cur[p]["Z"] for p in order], dtype=float), age=np.array([cur[p]["age"] for p in order], dtype=float),
+                   alive=np.ones(n, bool), pid=np.array(order, dtype=np.int64))
+        if conf["has_active"]:
+            arr["active"] = np.array([cur[p]["active"] for p in order], dtype=float if conf["carrier"] == "numeric" else bool)
+        if conf["has_sink"]:
+            arr["sink_vel"] = np.array([cur[p]["sink_vel"] for p in order], dtype=float)
+        st = NumState(dt=conf["dt"], timestep=t, **arr)
+        ub = np.array([script[p]["ub"][t] for p in order], dtype=float)
+        vb = np.array([script[p]["vb"][t] for p in order], dtype=float)
+        f = env.forcing()
+        f.velocity = lambda x, y, z, tstep=0, _u=ub, _v=vb: (_u.copy(), _v.copy())
+        if n == 0:
+            with warnings.catch_warnings():
+                warnings.simplefilter("error")
+                try:
+                    with np.errstate(all="warn"):
+                        with RngRecorder(seed + t, inj):
+                            ibm.update_ibm(env.grid(), st, f)
+                except Exception as e:       # noqa
+                    empties.append((t, repr(e)))
+                    return traj, empties
+            continue
+        with RngRecorder(seed + t, inj):
+            ibm.update_ibm(env.grid(), st, f)
+        for i, p in enumerate(order):
+            for k in FULL_VARS:
+                if k in st:
+                    v = st[k][i]
+                    cur[p][k] = bool(v) if k == "alive" else float(v)
+            traj[p].append(tuple(cur[p][k] for k in FULL_VARS))
+    return traj, empties
+
+
+def full_histories(ctx, modname):
+    """every state variable of every particle, in the community (re-ordered before every update) and alone"""
+    import random
+    site = "ladim_plugins/%s/ibm.py" % modname
+    for h in range(ctx.n(30, 300)):
+        steps = ctx.rng.randrange(3, 7)
+        npart = ctx.rng.randrange(2, 7)
+        conf = full_conf(ctx.rng, modname)
+        script = make_full_script(ctx.rng, steps, npart, modname, conf)
+        pids = list(script)
+        inj = const_inj(ctx.rng)
+        seed = ctx.sub_seed()
+        summ = dict(module=modname, dt=conf["dt"], ibm=conf["ibm"], env=conf["env"].asdict(), carrier=conf.get("carrier"),
+                    has_active=conf["has_active"], script=script)
+        ctx.case(key=(modname, "full_history", repr(summ)), nontrivial=True)
+        ctx.branch("%s.full_history" % modname)
+        comm, emp = run_full_history(modname, conf, script, pids, steps, seed, inj, random.Random(seed))
+        for t, msg in emp:
+            ctx.oracle(False, "C10.%s.empty_set" % modname, site,
+                       "empty particle set at update %d of a history (module has remembered state): %s" % (t, msg), summ)
+        if conf["tc"] is not None:
+            ctx.branch("%s.full_history.resuspension_on" % modname)
+        if not conf["has_active"] and modname == "mine":
+            ctx.branch("mine.full_history.no_active_variable")
+        if conf.get("carrier") == "bool" and conf["has_active"]:
+            ctx.branch("%s.full_history.boolean_active" % modname)
+        if modname == "chemicals":
+            ctx.branch("chemicals.full_history.%s" % conf["ibm"]["land_collision"])
+            if "horzdiff_type" in conf["ibm"]:
+                ctx.branch("chemicals.full_history.horzdiff")
+        ia = FULL_VARS.index("active"); il = FULL_VARS.index("alive")
+        if conf["has_active"]:
+            flags = [[s_[ia] for s_ in tr] for tr in comm.values()]
+            ctx.branch("%s.full_history.settled_particle" % modname, sum(1 for fl in flags if 0 in fl))
+            ctx.branch("%s.full_history.resuspended_particle" % modname,
+                       sum(1 for p, fl in zip(comm, flags) if any(a == 0 and b != 0 for a, b in zip([script[p]["active0"]] + fl, fl))))
+        ctx.branch("%s.full_history.killed_by_module" % modname, sum(1 for tr in comm.values() if tr and not tr[-1][il]))
+        for p in pids:
+            solo, emp1 = run_full_history(modname, conf, script, [p], steps, seed, inj)
+            for t, msg in emp1:
+                ctx.branch("%s.full_history.empty_state_failed" % modname)
+                ctx.oracle(False, "C10.%s.empty_set" % modname, site,
+                           "empty particle set at update %d of a history (module has remembered state): %s" % (t, msg),
+                           dict(summ, pid=p))
+            if emp1:
+                continue
+            a, b = solo[p], comm[p]
+            ok = len(a) == len(b)
+            what = "number of updates lived %d vs %d" % (len(b), len(a))
+            if ok:
+                for t_, (sa, sb) in enumerate(zip(a, b)):
+                    for k, va, vb_ in zip(FULL_VARS, sa, sb):
+                        same = (va == vb_) if isinstance(va, bool) else same_bits(va, vb_)
+                        if not same:
+                            ok = False
+                            what = "%s after its update no. %d: %r in the community, %r alone" % (k, t_, vb_, va)
+                            break
+                    if not ok:
+                        break
+            ctx.oracle(ok, "C10.%s.history_identity" % modname, site,
+                       "pid %d in the community differs from the same particle alone: %s" % (p, what),
+                       dict(summ, pid=p, community=comm[p], alone=solo[p], vars=FULL_VARS))
+        ctx.branch("%s.full_history.empty_state_inside" % modname,
+                   sum(1 for p in pids if script[p]["birth"] > 0 or script[p]["death"] < steps))
+
+
+def _reposition_once(M, modname, old_p, ox, oy, new_p, nx, ny, act, seed):
+    """one call of the module's `reposition` with the given memory and state; returns (x, y) after"""
+    if modname == "chemicals":
+        ibm = M.IBM(dict(dt=60.0, ibm=dict(land_collision="reposition", vertical_advection=False)))
+    else:
+        ibm = M.IBM(dict(dt=60.0, ibm=dict(lifespan=1e9, vertical_mixing=0.0, taucrit=1000), output_instance=[],
+                         nc_attributes={}))
+    n_new = len(new_p)
+    ibm.x = np.array(ox, dtype=float); ibm.y = np.array(oy, dtype=float); ibm.pid = np.array(old_p, dtype=int)
+    st = NumState(X=np.array(nx, dtype=float), Y=np.array(ny, dtype=float), Z=np.zeros(n_new), pid=np.array(new_p, dtype=int),
+                  alive=np.ones(n_new, bool), active=np.array(act, dtype=float), age=np.zeros(n_new),
+                  sink_vel=np.full(n_new, 1e-9), dt=60.0, timestep=0)
+    ibm.state = st
+    with RngRecorder(seed, lambda k, p_, v: np.full(v.shape, 0.3)):
+        ibm.reposition()
+    return np.array(st.X, dtype=float), np.array(st.Y, dtype=float)
+
+
 def memory_model(ctx, drv):
-    """Lean `Memory.stuck` vs the implementation's reposition decision (mine: copies; chemicals under fresh arrays)"""
-    if not drv.available:
+    """the implementation's reposition decisions: (i) each particle in the set vs alone (state reduced to the particle;
+    memory reduced to the particle's own record), (ii) decided by the particle's own remembered position,
+    (iii) Lean `Memory.stuck` (mine: copies; chemicals under fresh arrays)"""
+    use_drv = drv.available
+    if not use_drv:
         ctx.note("driver unavailable: memory model correspondence skipped")
-        return
     pend = []
     for modname in ("chemicals", "mine"):
         M = ibmrun.mod(modname)
+        site = "ladim_plugins/%s/ibm.py::reposition" % modname
         for _ in range(ctx.n(40, 600)):
             n_old = ctx.rng.randrange(0, 6); n_new = ctx.rng.randrange(0, 6)
-            pool = list(range(8))
+            off = ctx.rng.choice([0, 0, 1000])
+            pool = list(range(off, off + 8))
             old_p = ctx.rng.sample(pool, n_old); new_p = ctx.rng.sample(pool, n_new)
             ox = [float(ctx.rng.randrange(3, 8)) + ctx.rng.choice([0.0, 0.25]) for _ in old_p]
             oy = [float(ctx.rng.randrange(3, 8)) + ctx.rng.choice([0.0, 0.25]) for _ in old_p]
@@ -199,29 +591,52 @@ def memory_model(ctx, drv):
                 if p in old_p and ctx.rng.random() < 0.6:
                     j = old_p.index(p)
                     nx.append(ox[j]); ny.append(oy[j] if ctx.rng.random() < 0.7 else oy[j] + 0.5)
+                elif n_old and ctx.rng.random() < 0.3:
+                    # exactly where ANOTHER particle was remembered (a particle that is not in the memory, or is there
+                    # with another position): only a comparison with somebody else's history finds it "not moved"
+                    j = ctx.rng.randrange(n_old)
+                    nx.append(ox[j]); ny.append(oy[j])
+                    ctx.branch("%s.memory_lookup.at_anothers_remembered_position" % modname, int(old_p[j] != p))
                 else:
                     nx.append(float(ctx.rng.randrange(3, 8)) + 0.125); ny.append(float(ctx.rng.randrange(3, 8)))
-            if modname == "chemicals":
-                ibm = M.IBM(dict(dt=60.0, ibm=dict(land_collision="reposition", vertical_advection=False)))
-            else:
-                ibm = M.IBM(dict(dt=60.0, ibm=dict(lifespan=1e9, vertical_mixing=0.0, taucrit=1000), output_instance=[],
-                                 nc_attributes={}))
-            ibm.x = np.array(ox); ibm.y = np.array(oy); ibm.pid = np.array(old_p, dtype=int)
-            st = NumState(X=np.array(nx), Y=np.array(ny), Z=np.zeros(n_new), pid=np.array(new_p, dtype=int),
-                          alive=np.ones(n_new, bool), active=np.ones(n_new), age=np.zeros(n_new),
-                          sink_vel=np.full(n_new, 1e-9), dt=60.0, timestep=0)
-            ibm.state = st
-            x_before = st.X.copy(); y_before = st.Y.copy()
-            with RngRecorder(ctx.sub_seed(), lambda k, p_, v: np.full(v.shape, 0.3)):
-                ibm.reposition()
-            moved = (st.X != x_before) | (st.Y != y_before)
+            # mine: settled particles (flag 0) among suspended (1) and resuspended (2) ones
+            act = [ctx.rng.choice([1, 1, 0, 2]) if modname == "mine" else 1 for _ in new_p]
+            seed = ctx.sub_seed()
+            x_before = np.array(nx, dtype=float); y_before = np.array(ny, dtype=float)
+            X1, Y1 = _reposition_once(M, modname, old_p, ox, oy, new_p, nx, ny, act, seed)
+            moved = (X1 != x_before) | (Y1 != y_before)
             mem = " ".join("%d %s %s" % (p, F(x), F(y)) for p, x, y in zip(old_p, ox, oy))
             for i, p in enumerate(new_p):
-                j = drv.ask("mem.stuck", I(n_old), mem, I(p), F(x_before[i]), F(y_before[i]))
-                pend.append((j, bool(moved[i]), dict(module=modname, old=list(zip(old_p, ox, oy)), pid=p,
-                                                     x=x_before[i], y=y_before[i])))
-            ctx.case(key=(modname, "mem", repr((old_p, ox, oy, new_p, nx, ny))), nontrivial=n_old > 0 and n_new > 0)
+                cs = dict(module=modname, old=list(zip(old_p, ox, oy)), state=list(zip(new_p, nx, ny, act)), pid=p,
+                          x=x_before[i], y=y_before[i], after=(X1[i], Y1[i]))
+                # (i) the particle alone in the state, the memory unchanged
+                xs, ys = _reposition_once(M, modname, old_p, ox, oy, [p], [nx[i]], [ny[i]], [act[i]], seed)
+                ctx.oracle(same_bits(xs[0], X1[i]) and same_bits(ys[0], Y1[i]), "C10.%s.memory_identity" % modname, site,
+                           "pid %d ends at %r in the set and at %r when the other particles are absent from the state"
+                           % (p, (X1[i], Y1[i]), (xs[0], ys[0])), cs)
+                # ... and the memory reduced to the particle's own record (none when it was not remembered)
+                own = [j for j, q in enumerate(old_p) if q == p]
+                xm, ym = _reposition_once(M, modname, [old_p[j] for j in own], [ox[j] for j in own], [oy[j] for j in own],
+                                          [p], [nx[i]], [ny[i]], [act[i]], seed)
+                ctx.oracle(same_bits(xm[0], X1[i]) and same_bits(ym[0], Y1[i]), "C10.%s.memory_identity" % modname, site,
+                           "pid %d ends at %r in the set and at %r when the other particles are absent from state and memory"
+                           % (p, (X1[i], Y1[i]), (xm[0], ym[0])), cs)
+                if act[i] != 0:
+                    # (ii) a suspended particle is compared with its OWN remembered position, and with nothing else
+                    want = bool(own) and ox[own[0]] == nx[i] and oy[own[0]] == ny[i]
+                    ctx.oracle(bool(moved[i]) == want, "C10.%s.memory_identity" % modname, site,
+                               "pid %d at %r, own remembered position %r: re-seeded=%r" %
+                               (p, (nx[i], ny[i]), (ox[own[0]], oy[own[0]]) if own else None, bool(moved[i])), cs)
+                    if use_drv:
+                        j = drv.ask("mem.stuck", I(n_old), mem, I(p), F(x_before[i]), F(y_before[i]))
+                        pend.append((j, bool(moved[i]), dict(module=modname, old=list(zip(old_p, ox, oy)), pid=p,
+                                                             x=x_before[i], y=y_before[i])))
+                else:
+                    ctx.branch("mine.memory_lookup.settled_particle")
+            ctx.case(key=(modname, "mem", repr((old_p, ox, oy, new_p, nx, ny, act))), nontrivial=n_old > 0 and n_new > 0)
             ctx.branch("%s.memory_lookup" % modname)
+    if not use_drv:
+        return
     rep = drv.run()
     for j, moved, cs in pend:
         st, t = rep[j]
@@ -281,9 +696,13 @@ def saithe_spread(ctx):
 def run(ctx):
     for name in ibmrun.MODULES:
         metamorphic(ctx, name)
+    # mine on a state without an `active` variable (every particle counts as suspended; taucrit >= 1000)
+    metamorphic(ctx, "mine", gen=lambda rng, n=None: ibmrun.mine_case(rng, n, no_active=True), label="mine.no_active")
     saithe_spread(ctx)
     for m in ("chemicals", "mine"):
         histories(ctx, m)
+    for m in ("chemicals", "sedimentation", "mine"):
+        full_histories(ctx, m)
     if not getattr(ctx, "widened", False):
         memory_model(ctx, Driver())
 
